@@ -84,7 +84,6 @@ structure Base (E : Env) (P : State → Prop) (okU : Member → Prop) : Prop whe
   /-- the member `next` returns may become the probe target -/
   membersNext : PresR P (fun r => ∀ m, r = some m → okU ⟨m.id, m.inc, .suspect⟩) membersNext
   startProbe : ∀ m, okU ⟨m.id, m.inc, .suspect⟩ → Pres P (modS fun s => { s with probe := s.probe.start m })
-  removeDown : ∀ id, Pres P (modS fun s => { s with ms := removeIfDown s.ms id })
   sendMessage : ∀ d m, Pres P (sendMessage E d m)
   addUpdate : ∀ m, okU m → Pres P (addUpdate E m)
   modCtl : ∀ f, CtlKeep f → Pres P (modS f)
@@ -338,13 +337,14 @@ theorem Full.probeRandomMember : Pres P (Foca.probeRandomMember E) := by
     | exact F.probeStartNext
 
 /-- `handle_timer`; the one update built from the timer itself (the suspicion timeout) must be storable -/
-theorem Full.handleTimer (t : Timer) (ht : ∀ m inc tok, t = .s2d m inc tok → okU ⟨m, inc, .down⟩) :
+theorem Full.handleTimer (t : Timer) (ht : ∀ m inc tok, t = .s2d m inc tok → okU ⟨m, inc, .down⟩)
+    (hrm : ∀ id, t = .rm id → Pres P (modS fun s => { s with ms := removeIfDown s.ms id })) :
     Pres P (Foca.handleTimer E t) := by
   unfold Foca.handleTimer
   pres
   all_goals first
     | exact F.toBase.ctl _
-    | exact F.removeDown _
+    | exact hrm _ rfl
     | exact F.toBase.chooseLoop _ _ _ _ _
     | exact F.toBase.pingReqLoop _ _
     | exact F.toBase.applyExistingReport _ _ (ht _ _ _ rfl)
@@ -433,12 +433,14 @@ theorem Full.runOp (op : Op)
     (hreuse : op = .reuseDown → Pres P Foca.reuseDownIdentity)
     (hT : ∀ m inc tok, op = .timer (.s2d m inc tok) → okU ⟨m, inc, .down⟩)
     (hA : ∀ us b, op = .applyMany us b → ∀ u ∈ us, okIn u)
-    (hD : ∀ data, op = .data data → DataOk E okIn okH data) : Pres P (Foca.runOp E op) := by
+    (hD : ∀ data, op = .data data → DataOk E okIn okH data)
+    (hRm : ∀ id, op = .timer (.rm id) → Pres P (modS fun s => { s with ms := removeIfDown s.ms id })) :
+    Pres P (Foca.runOp E op) := by
   cases op <;> unfold Foca.runOp <;> pres
   all_goals first
     | exact hchid _ _ rfl
     | exact hreuse rfl
-    | exact F.handleTimer _ (fun m inc tok h => hT m inc tok (by rw [h]))
+    | exact F.handleTimer _ (fun m inc tok h => hT m inc tok (by rw [h])) (fun id h => hRm id (by rw [h]))
     | exact F.applyMany _ _ (hA _ _ rfl)
     | exact F.handleData _ (hD _ rfl)
     | exact F.sendMessage _ _
@@ -480,7 +482,6 @@ theorem Leaves.base : Base E P (fun _ => True) where
     | err e c' => rw [hm] at this; exact this
     | ok a c' => rw [hm] at this; exact ⟨this, fun _ _ => trivial⟩⟩
   startProbe := fun m _ => L.modCtl _ (fun s => ⟨rfl, rfl, rfl, rfl, rfl⟩)
-  removeDown := L.removeDown
   sendMessage := L.sendMessage
   addUpdate := fun m _ => L.addUpdate m
   modCtl := fun f h => L.modCtl f (fun s => ⟨(h s).1, (h s).2.1, (h s).2.2.1, (h s).2.2.2.1, (h s).2.2.2.2.1⟩)
@@ -511,7 +512,7 @@ theorem Leaves.full : Full E P (fun _ => True) (fun _ => True) (fun _ => True) w
 
 theorem Leaves.runOp (op : Op) : Pres P (Foca.runOp E op) :=
   L.full.runOp op (fun _ _ _ => L.changeIdentity _ _) (fun _ => L.reuseDownIdentity) (fun _ _ _ _ => trivial)
-    (fun _ _ _ _ _ => trivial) (fun _ _ _ _ _ => ⟨trivial, fun _ _ _ _ _ => trivial⟩)
+    (fun _ _ _ _ _ => trivial) (fun _ _ _ _ _ => ⟨trivial, fun _ _ _ _ _ => trivial⟩) (fun id _ => L.removeDown id)
 
 /-- One public call keeps the invariant, whatever the input and the oracle. -/
 theorem Leaves.step (s : State) (op : Op) (orc : Oracle) (h : P s) :
@@ -541,5 +542,12 @@ theorem Leaves.reachable {E : Env} {P : State → Prop} (L : Leaves E P)
     have := L.step _ op orc ih
     rw [hstep] at this
     exact this
+
+/-- histories of public calls -/
+inductive RunsTo (E : Env) (allowed : Op → Prop) : State → State → Prop
+  | refl (s : State) : RunsTo E allowed s s
+  | step {s s1 s2 : State} (op : Op) (orc : Oracle) (eff : List Effect) (r : Res) (left : Oracle) :
+      RunsTo E allowed s s1 → allowed op → Foca.step E s1 op orc = .done s2 eff r left → RunsTo E allowed s s2
+
 
 end Foca
